@@ -160,6 +160,16 @@ pub fn plan(prop: &str, tier: &str, seed: u64) -> Option<Plan> {
             p.jobs = seq_jobs(prop, seed, "rel", 12, n_rel, secs, 0);
             // overflow-checked build: arena panics become observable events
             p.jobs.extend(seq_jobs(prop, seed, "dbg", 4, n_rel / 4, secs, 1_000_000));
+            if prop == "C16" {
+                // static part: reserved 0..=4096 exhaustively, capacity around the prefix
+                for k in 0..4u64 {
+                    let lo = k * 1025;
+                    let hi = (lo + 1024).min(4096);
+                    let mut j = Job::new(&format!("layout-{}", k), &bin(if k == 3 { "dbg" } else { "rel" }), sv(&["layout", "--from", &lo.to_string(), "--to", &hi.to_string()]));
+                    j.timeout_s = 900;
+                    p.jobs.push(j);
+                }
+            }
             if prop == "C13" {
                 // multi-threaded part: refs() accounting, clone/drop/send of owned buffers under the scheduler
                 p.jobs.extend(sched_jobs(prop, seed, "A", 2, if quick { 1500 } else { 100000 }, if quick { 25 } else { 600 }, false));
@@ -198,7 +208,7 @@ pub fn plan(prop: &str, tier: &str, seed: u64) -> Option<Plan> {
                 "C10" => sv(&["c10_slow_path_policy_checks", "c10_split_remainders", "c10_whole_segment"]),
                 "C11" => sv(&["c10_slow_path_policy_checks"]),
                 "C13" => sv(&["c13_release_effect_checks", "c13_detach_checks", "c13_value_drop_checks", "c13_backing_checks", "original_arena_dropped_first", "refs_checks"]),
-                "C16" => sv(&["c16_accessor_tables_checked", "c16_first_allocation_checks"]),
+                "C16" => sv(&["c16_accessor_tables_checked", "c16_first_allocation_checks", "c16_static_cases", "c16_construction_refusals"]),
                 "C17" => sv(&["c17_rewind_checks", "c17_clear_checks", "c17_fresh_twins_started"]),
                 "C18" => sv(&["c18_truncate_checks"]),
                 "C20" => sv(&["c20_discard_delta_checks", "c20_discard_freelist_nonempty", "c20_increase_discarded_checks"]),
